@@ -3,4 +3,6 @@
 
 package backend
 
+type verifFields struct{}
+
 func (b *backend) verifStopped() bool { return false }
